@@ -391,6 +391,46 @@ func c05Messages(r *rand.Rand, i int) []hostileMsg {
 			}
 			q = append(q, seqMsg{9, 5000, vf(70, true)}, seqMsg{8, 5000, af(70)})
 			seq("timestamps-stand-still")
+			// audio codecs without a sequence header from the first message on (the TS program map and
+			// the SDP are built for them), with and without video
+			for _, ac := range []string{"opus", "g711a", "g711u"} {
+				oa := func(k int) []byte { return gen.AudioFrameCodec(r, 6, 6500+k, 40, ac) }
+				q = append(q, seqMsg{9, 0, vsh}, seqMsg{9, 0, vf(0, true)})
+				for k := 0; k < 24; k++ {
+					q = append(q, seqMsg{8, uint32(k * 20), oa(k)}, seqMsg{9, uint32(k*20 + 10), vf(k+1, k%12 == 11)})
+				}
+				seq(ac + "-with-video")
+				for k := 0; k < 30; k++ {
+					q = append(q, seqMsg{8, uint32(k * 20), oa(k)})
+				}
+				seq(ac + "-only")
+				for k := 0; k < 4; k++ {
+					q = append(q, seqMsg{8, uint32(k * 20), oa(k)})
+				}
+				seq(ac + "-only-short")
+			}
+		}
+		// a video configuration lal can use only in part (parameter set of length zero), audio frames
+		// that never get a sequence header, and enough messages to end every codec probe
+		for _, mode := range []int{0, 1, 2, 3} {
+			var q []seqMsg
+			v := gen.AvcSeqHeader(6, 3)
+			switch mode {
+			case 0: // SPS present, PPS count 1 with length 0
+				v = append(append([]byte(nil), v[:13+len(gen.AvcSps)]...), 1, 0, 0)
+			case 1: // SPS length 0
+				v = []byte{0x17, 0, 0, 0, 0, 1, 0x42, 0xc0, 0x1e, 0xff, 0xe1, 0, 0, 1, 0, 4, 0x68, 0xce, 0x3c, 0x80}
+			case 2: // no PPS at all (count 0)
+				v = append(append([]byte(nil), v[:13+len(gen.AvcSps)]...), 0)
+			}
+			q = append(q, seqMsg{9, 0, v}, seqMsg{8, 0, af(0)})
+			for k := 0; k < 24; k++ {
+				q = append(q, seqMsg{9, uint32(k * 40), vf(k, k%10 == 0)})
+				if mode == 3 && k%2 == 0 {
+					q = append(q, seqMsg{8, uint32(k * 40), af(k)})
+				}
+			}
+			out = append(out, hostileMsg{Class: fmt.Sprintf("valid-order/partial-video-config-%d+headerless-aac", mode), Type: 9, Payload: v[:5], Seq: q})
 		}
 	case 5:
 		// valid-looking frames with hostile timestamps (filled in by the caller from Class)
@@ -482,7 +522,7 @@ func init() {
 		ID:          "C05",
 		NumCases:    func(tier string, seed int64) int { return c05Sizes(tier) },
 		CaseTimeout: func(string) time.Duration { return 10 * time.Minute },
-		Rule: "one sub-input = one well-framed audio/video/metadata message with a hostile payload sent by an accepted reference publisher to the whole in-process server under one of 8 output configurations (all outputs, gop 0/1/2, dummy audio, single outputs, merge write): all 256 one-byte payloads × audio/video, 2..12-byte payloads over the codec-relevant first bytes × packet types, AVC/HEVC(classic+enhanced)/AAC sequence headers truncated at every offset and with corrupted inner lengths, all 2-byte ASCs, enhanced-RTMP headers with other fourccs, AVC sequence headers whose SPS announces huge counts (reference cycle, scaling lists, dimensions) and then ends, NAL length fields that lie (0, beyond the end, 2^31, 2^32−1), zero-length NALs, unknown codec ids, non-AMF metadata, large random payloads, extreme and backward timestamps, bit-flipped valid frames, codec switches mid-stream, metadata nested up to the 16 MiB message limit, and whole side sessions of well-formed messages in unusual orders (long audio run before the first key frame, inter frames before any key frame, late video, late audio, frames before headers, timestamps that stand still, single-media streams of 3–4 messages, headers only) × AVC / HEVC / enhanced HEVC. honest tiny NAL units of every H.264/H.265 type code incl. the RTP aggregation/fragmentation codes; every hostile sequence header is also sent as the opening message of a stream of its own (configuration is parsed only there); RTMP/FLV/TS joiners attach between messages, RTSP (TCP and UDP) subscribers re-join mid-GOP every 10 messages so that the wait-for-key-frame path inspects the hostile NALs. " +
+		Rule: "one sub-input = one well-framed audio/video/metadata message with a hostile payload sent by an accepted reference publisher to the whole in-process server under one of 8 output configurations (all outputs, gop 0/1/2, dummy audio, single outputs, merge write): all 256 one-byte payloads × audio/video, 2..12-byte payloads over the codec-relevant first bytes × packet types, AVC/HEVC(classic+enhanced)/AAC sequence headers truncated at every offset and with corrupted inner lengths, all 2-byte ASCs, enhanced-RTMP headers with other fourccs, AVC sequence headers whose SPS announces huge counts (reference cycle, scaling lists, dimensions) and then ends, NAL length fields that lie (0, beyond the end, 2^31, 2^32−1), zero-length NALs, unknown codec ids, non-AMF metadata, large random payloads, extreme and backward timestamps, bit-flipped valid frames, codec switches mid-stream, metadata nested up to the 16 MiB message limit, and whole side sessions of well-formed messages in unusual orders (long audio run before the first key frame, inter frames before any key frame, late video, late audio, frames before headers, timestamps that stand still, single-media streams of 3–4 messages, headers only, Opus / G.711 from the first message on with and without video, AVC configurations with an empty or missing parameter set followed by AAC frames that never get a header; RTSP players whose DESCRIBE is pending before such a stream starts) × AVC / HEVC / enhanced HEVC. honest tiny NAL units of every H.264/H.265 type code incl. the RTP aggregation/fragmentation codes; every hostile sequence header is also sent as the opening message of a stream of its own (configuration is parsed only there); RTMP/FLV/TS joiners attach between messages, RTSP (TCP and UDP) subscribers re-join mid-GOP every 10 messages so that the wait-for-key-frame path inspects the hostile NALs. " +
 			"monitors: process liveness (crash signature = panic text + innermost lal frame; driver resumes after the crashing message), a marker frame after each hostile message must reach a pre-attached FLV witness (else, with the publisher connection still open, the stream is stalled), amplification counter (tags delivered between consecutive markers), canary stream on another name after each case. cell = config cell × input class.",
 		Assumptions: []string{"lal closing the publisher's connection on an uninterpretable payload is allowed (the case reconnects)", "amplification bound: 8 + size/100 deliveries per input message, or 10 000 when dummy audio is on (intended gap filling)"},
 		MinCells: 20,
@@ -658,6 +698,21 @@ func c05Run(c *fw.Ctx, i int) {
 					sideJoin = append(sideJoin, lc)
 				}
 			}
+			// RTSP players that ask for the stream before it exists: lal answers their DESCRIBE once it
+			// has built (or failed to build) a description from the first messages
+			var early []*ref.RtspClient
+			if cell.Conf.Rtsp && !light {
+				for _, udp := range []bool{false, true} {
+					if rc, err := ref.DialRtsp(s.RtspAddr(), 2*time.Second); err == nil {
+						early = append(early, rc)
+						go func(rc *ref.RtspClient, udp bool) {
+							rc.Play("rtsp://"+s.RtspAddr()+"/live/"+sideName, udp, 8*time.Second)
+						}(rc, udp)
+					}
+				}
+				c.Count("rtsp_players_before_the_stream", len(early))
+				time.Sleep(15 * time.Millisecond)
+			}
 			sideFrom := s.Notify.Len()
 			if sp, err := ref.StartRtmpPublisher(s.RtmpAddr(), "live", sideName, 5*time.Second); err == nil {
 				sp.RC.SetChunkSize(4096)
@@ -676,6 +731,7 @@ func c05Run(c *fw.Ctx, i int) {
 				if _, ok := s.Notify.WaitSessionFrom(15*time.Second, sideFrom, "pub_stop", sideKey); !ok {
 					if _, started := s.Notify.WaitSessionFrom(0, sideFrom, "pub_start", sideKey); started {
 						c.Violate("stall/"+hm.Class, fmt.Sprintf("a stream opened with this message was not finished 15 s after its publisher had closed the connection (lal still busy with its messages) | cell=%s class=%s payload=%x", cell.Name, hm.Class, hm.Payload[:min(len(hm.Payload), 48)]), nil)
+						c.ExitNow() // whatever holds that session holds its stream's lock: an orderly stop would block too
 					}
 				}
 				sp.Close()
@@ -683,6 +739,9 @@ func c05Run(c *fw.Ctx, i int) {
 			}
 			for _, lc := range sideJoin {
 				lc.close()
+			}
+			for _, rc := range early {
+				rc.Close()
 			}
 		}
 		hookBefore := -1
@@ -723,8 +782,7 @@ func c05Run(c *fw.Ctx, i int) {
 			if !delivered && !ss.pub.PeerClosed() {
 				stalls++
 				c.Violate("stall/"+hm.Class, fmt.Sprintf("marker frame sent after the hostile message was not delivered within 15 s although the publisher connection is still open | cell=%s class=%s type=%d ts=%d payload=%x", cell.Name, hm.Class, hm.Type, ts, hm.Payload[:min(len(hm.Payload), 48)]), nil)
-				c.RestartChild = true
-				return
+				c.ExitNow() // lal is wedged: an orderly stop would block too
 			}
 			n := ss.witness.NumTags()
 			amp := n - lastWitness
@@ -745,8 +803,7 @@ func c05Run(c *fw.Ctx, i int) {
 				if !ok {
 					stalls++
 					c.Violate("stall/"+hm.Class, fmt.Sprintf("neither the hostile message nor the marker frame was processed within 15 s although the publisher connection is still open | cell=%s class=%s type=%d ts=%d payload=%x", cell.Name, hm.Class, hm.Type, ts, hm.Payload[:min(len(hm.Payload), 48)]), nil)
-					c.RestartChild = true
-					return
+					c.ExitNow() // lal is wedged: an orderly stop would block too
 				}
 			}
 		}
